@@ -315,3 +315,74 @@ func TestVP_C30_ChunkRoundTrip(t *testing.T) {
 		}
 	})
 }
+
+// 32-bit half: 386 binaries cannot run in this sandbox, so the driver derives an int32 instance of
+// parseUintBuf from the current source text (harness/pregen/c30_int32.py) and the same generated
+// search is run against a 32-bit reference.
+func vpGenDigits32() *rapid.Generator[string] {
+	maxs := strconv.Itoa(math.MaxInt32)
+	return rapid.Custom(func(t *rapid.T) string {
+		var s string
+		switch rapid.IntRange(0, 7).Draw(t, "shape32") {
+		case 0:
+			s = rapid.StringMatching(`[0-9]{0,24}`).Draw(t, "digits")
+		case 1:
+			s = rapid.StringMatching(`[0-9]{8,12}`).Draw(t, "digits812")
+		case 2:
+			s = strconv.FormatInt(int64(math.MaxInt32)+rapid.Int64Range(-2000, 2000).Draw(t, "k"), 10)
+		case 3:
+			s = strconv.FormatInt(int64(math.MaxInt32/10)+rapid.Int64Range(-3, 3).Draw(t, "j"), 10) + strconv.Itoa(rapid.IntRange(0, 9).Draw(t, "d"))
+		case 4:
+			n := rapid.IntRange(0, len(maxs)).Draw(t, "prefix")
+			s = maxs[:n] + rapid.StringMatching(fmt.Sprintf(`[0-9]{%d}`, len(maxs)-n)).Draw(t, "tail")
+		case 5: // multiples of 2^32 / 2^31 neighbourhood: values that wrap back into range
+			v := rapid.Int64Range(1, 4000).Draw(t, "m")<<31 + rapid.Int64Range(-50, 50).Draw(t, "k")
+			s = strconv.FormatInt(v, 10)
+		case 6:
+			s = strings.Repeat("0", rapid.IntRange(1, 20).Draw(t, "zeros")) + strconv.FormatInt(int64(math.MaxInt32)+rapid.Int64Range(-20, 20).Draw(t, "k"), 10)
+		default:
+			s = strconv.Itoa(rapid.IntRange(0, 1<<20).Draw(t, "small"))
+		}
+		if rapid.IntRange(0, 6).Draw(t, "inject") == 0 {
+			pos := rapid.IntRange(0, len(s)).Draw(t, "pos")
+			s = s[:pos] + string([]byte{rapid.SampledFrom([]byte{'+', '-', ' ', 'x', '.', 0}).Draw(t, "c")}) + s[pos:]
+		}
+		return s
+	})
+}
+
+func TestVP_C30_ParseUintBuf32(t *testing.T) {
+	if !vpC30Have32 {
+		vpNote("C30: the int32 instance of parseUintBuf could not be derived from the current source text; 32-bit half not checked in this run")
+		t.Skip("no derived int32 instance")
+	}
+	max32 := big.NewInt(math.MaxInt32)
+	rapid.Check(t, func(t *rapid.T) {
+		s := vpGenDigits32().Draw(t, "s")
+		n := 0
+		for n < len(s) && s[n] >= '0' && s[n] <= '9' {
+			n++
+		}
+		v, gotN, err := vpC30ParseUintBuf32([]byte(s))
+		vpCase("parseUintBuf/int32-instance", n >= 9 || n < len(s), s, func() string { return fmt.Sprintf("%q", s) })
+		if n == 0 {
+			if err == nil {
+				t.Fatalf("int32 parseUintBuf(%q): no digits but no error", s)
+			}
+			return
+		}
+		bv, _ := new(big.Int).SetString(s[:n], 10)
+		if bv.Cmp(max32) > 0 {
+			if err == nil {
+				t.Fatalf("int32 instance of parseUintBuf(%q): prefix %s overflows a 32-bit int but got v=%d n=%d nil error", s, s[:n], v, gotN)
+			}
+			return
+		}
+		if err != nil {
+			t.Fatalf("int32 parseUintBuf(%q): unexpected error %v", s, err)
+		}
+		if int64(v) != bv.Int64() || gotN != n {
+			t.Fatalf("int32 parseUintBuf(%q) = (%d,%d), want (%s,%d)", s, v, gotN, bv, n)
+		}
+	})
+}
